@@ -354,6 +354,32 @@ class Conn:
         return cnew, heads, raw
 
 
+def addon_order_lean(ns: str) -> str:
+    """the order of mitmproxy.addons.default_addons() (hooks run in this order), read from the source"""
+    import ast, inspect, textwrap
+    from mitmproxy import addons as A
+    tree = ast.parse(textwrap.dedent(inspect.getsource(A.default_addons)))
+    names = []
+    for node in ast.walk(tree):
+        if isinstance(node, ast.Return) and isinstance(node.value, ast.List):
+            for el in node.value.elts:
+                f = el.func if isinstance(el, ast.Call) else el
+                names.append(f.attr if isinstance(f, ast.Attribute) else getattr(f, "id", "?"))
+    if not names: raise RuntimeError("default_addons(): no literal list found")
+    return (f"/-- class names of mitmproxy.addons.default_addons(), in order (hooks run in this order) -/\n"
+            f"def addonOrder : List String := [{', '.join(chr(34) + n + chr(34) for n in names)}]\n")
+
+
+CONFDIR = os.path.join(WORK, "c20", "conf")
+
+
+def default_chain():
+    """fresh instances of mitmproxy's default addons, in source order"""
+    from mitmproxy import addons as A
+    chain = A.default_addons()
+    return chain, {type(a).__name__: a for a in chain}
+
+
 def quiet_logging():
     """every test master installs a log handler bound to its own (soon closed) event loop; an addon error logged by
     addonmanager.safecall would then raise from a stale handler and abort the hook chain — drop those handlers"""
@@ -389,7 +415,10 @@ class Check(PropertyCheck):
                   "per-connection path machine. Tied end-to-end: real mode layers + HttpLayer + real ProxyAuth addon in world.py "
                   "(per step: status AND the exact 401/407 page + challenge field predicted by the model, request heads reaching "
                   "upstream, tunnels, closes) and by unit ops (a2b_base64 / b2a_base64 / str.encode / mkauth / "
-                  "make_auth_required_response against the transcriptions).")
+                  "make_auth_required_response against the transcriptions). End-to-end cases run through the REAL default addon chain "
+                  "(mitmproxy.addons.default_addons(), all 31 addons, source order), with proxyauth x upstream_auth combined; the "
+                  "order the models assume (ProxyAuth before UpstreamAuth and NextLayer; ScriptLoader / MapRemote / ModifyHeaders "
+                  "before UpstreamAuth) is regenerated from the source into Gen and proved by addon_order_as_assumed.")
     level_note = ("trusted: Lean kernel; hand model tied differentially (validated, not verified). Library functions are "
                   "parameters of the model (Lib): str.isspace / str.lower tables regenerated from the running interpreter "
                   "(Gen/C20.lean; the theorems about standard credentials are proved for exactly these tables), utf-8 'replace' "
@@ -430,7 +459,8 @@ class Check(PropertyCheck):
                     "mitmproxy.proxy.layers.http:HttpStream.state_consume_request_body",
                     "mitmproxy.proxy.layers.http:HttpStream.handle_connect", "mitmproxy.proxy.layers.http:HttpStream.handle_connect_finish",
                     "mitmproxy.proxy.layers.http:HttpStream.check_invalid", "mitmproxy.proxy.layers.http:HttpStream.check_body_size",
-                    "mitmproxy.proxy.layers.http:HttpStream.start_request_stream", "mitmproxy.http:Headers.get_all"]
+                    "mitmproxy.proxy.layers.http:HttpStream.start_request_stream", "mitmproxy.http:Headers.get_all",
+                    "mitmproxy.addons:default_addons"]
     trusted_base = ["harness/common/world.py as a stand-in for proxy/server.py's command interpreter",
                     "binascii.a2b_base64, bytes.decode('utf8','replace'/'backslashreplace'), hashlib.sha1, str.split/str.lower as library parameters of the model",
                     "mitmproxy's HTTP/1 parser hands header fields to the addon verbatim for the generated (clean) values — checked per case at the hook boundary, other cases skipped"]
@@ -438,6 +468,10 @@ class Check(PropertyCheck):
 
     def setup(self, tier):
         self.parallel = tier == "thorough"
+        os.makedirs(CONFDIR, exist_ok=True)
+        chain, _ = default_chain()                      # creates the CA under .work/c20/conf once, before any worker forks
+        with taddons.context(*chain, loadcore=False) as tctx:
+            tctx.options.update(confdir=CONFDIR)
 
     # ------------------------------------------------------------------ Gen tables (T tie)
     def translate(self):
@@ -458,6 +492,7 @@ class Check(PropertyCheck):
                f"/-- (c, lower(c)) for every code point whose str.lower() is a letter of \"basic\" -/\n"
                f"def lowerTable : List (Nat × Nat) := [{', '.join(f'({a}, {b})' for a, b in lowers)}]\n"
                f"def realm : String := {self._lean_str(proxyauth.REALM)}\n"
+               + addon_order_lean("C20") +
                "end MitmVerif.Gen.C20\n")
         return {"MitmVerif/Gen/C20.lean": src}
 
@@ -589,7 +624,7 @@ class Check(PropertyCheck):
             qs = [q for q in pending if q]
             steps.append(rng.pick(qs).pop(0))
         case = {"op": "conn", "val": val, "opts": opts, "conns": conns, "steps": steps}
-        if rng.chance(0.1): case["upauth"] = "up:secret"       # UpstreamAuth loaded as well: oracle only (not modelled here, see C24)
+        if rng.chance(0.2): case["upauth"] = rng.pick(["up:secret", "user:pass", "alice:s3cret"])       # UpstreamAuth loaded as well: oracle only (not modelled here, see C24)
         return case
 
     def gen_hook_case(self, rng):
@@ -673,13 +708,21 @@ class Check(PropertyCheck):
                 return {"parse": f"ok {cps(u)} {cps(p)}"}
             except ValueError:
                 return {"parse": "err"}
-        pa = proxyauth.ProxyAuth()
-        addons = [pa, proxyserver.Proxyserver(), next_layer.NextLayer()]        # default addon order
-        ua = None
-        if case.get("upauth"):
-            ua = upstream_auth.UpstreamAuth(); addons.append(ua)
-        with taddons.context(*addons) as tctx:
+        if case["op"] == "hook":
+            pa = proxyauth.ProxyAuth()
+            with taddons.context(pa) as tctx:
+                quiet_logging()
+                tctx.configure(pa, proxyauth=proxyauth_option(case["val"]))
+                if case["val"].get("raise_on") and pa.validator:
+                    pa.validator = RaisingValidator(pa.validator, case["val"]["raise_on"])
+                return self.run_hooks(case, pa, tctx)
+        # end-to-end cases run through the REAL default addon chain, in the order mitmproxy.addons.default_addons() gives it
+        chain, by = default_chain()
+        pa = by["ProxyAuth"]
+        ua = by["UpstreamAuth"] if case.get("upauth") else None
+        with taddons.context(*chain, loadcore=False) as tctx:
             quiet_logging()
+            tctx.options.update(confdir=CONFDIR)
             tctx.configure(pa, proxyauth=proxyauth_option(case["val"]))
             if case["val"].get("raise_on") and pa.validator:
                 pa.validator = RaisingValidator(pa.validator, case["val"]["raise_on"])
